@@ -77,7 +77,7 @@ TEXTS = {
                     'TLC finds a torn read without it (negative control run on every check); LatchInd.tla: an inductive invariant discharged with Apalache '
                     'shows NoTornRead for any number of versions (negative control: RLock without its guard). On the real code, 16-core stress: writers '
                     'keep (a, b, s) = (k, 2k, "v"k) across three columns of different kinds (also two rows of different blocks in one '
-                    'transaction); readers (QueryAt, Range, filtered Range) report the distinct triples read inside one callback (millions '
+                    'transaction); readers (QueryAt, Range, filtered Range, point reads nested inside a Range over another block) report the distinct triples read inside one callback (millions '
                     'of reads per run), each must be a committed version (Ascend readers too: as built they run without the latch and do see torn rows - '
                     'known finding D-ascend-no-latch, excused exactly for them); deterministic probes: with a writer parked inside the logger '
                     'callback a reader of that block must not complete, a reader of another block must.',
@@ -127,17 +127,19 @@ TEXTS = {
                     'extensions and unrelated updates meanwhile; a restored snapshot and a replica with their own vacuum) are validated: '
                     'every removal needs a passed deadline at the in-latch timestamp, rows overdue by more than the slack must be gone, rows '
                     'not due must be there, Extend moves the deadline by exactly its argument (also when the deadline was set by the same transaction or '
-                    'insert), copies carry the same deadlines.',
+                    'insert), a Set buffers the deadline (time of the call + ttl) - also through an accessor obtained tens of milliseconds earlier - and copies '
+                    'carry the same deadlines.',
             'note': _NOTE + ' Wall-clock based: the slack is 10 intervals + 3 s.', 'technique': _T},
     'C18': {'text': 'Locks.tla lists for every code path the locks held around each access to each shared variable (Go RWMutex writer '
                     'preference included); TLC checks deadlock freedom and the lockset invariant NoRace for 5-6 concurrent paths, with the '
                     'four variables the as-built protocol leaves unordered excused (and fails without the excuse: negative control); '
-                    'termination under fairness on 3 paths (thorough). The stress workload (growth across blocks, offset reuse, snapshots, '
+                    'termination under fairness on 3 paths (thorough). The stress workload (three full blocks from the start, growth across blocks, offset reuse, record and string '
+                    'merges with user merge functions in several blocks at once, snapshots, '
                     'restores, index builds and drops, keyed upserts, aborted inserting transactions, failing inserts, Ascend, a replica, readers and writers) runs under the race detector with a '
                     'watchdog; every report and every panic is mapped to a model variable and judged by LocksTrace.tla.',
             'note': 'The race detector explores, the specification classifies: this is the property where the technique contributes least (TLA+ '
-                    'cannot observe memory accesses). Trusted: the function table of bin/racemap.py; reports whose functions map to no '
-                    'modelled variable are listed in the evidence, not judged.',
+                    'cannot observe memory accesses). Trusted: the function table of bin/racemap.py; a report with both sides inside the library on memory '
+                    'the table does not name is a violation (variable "unmapped").',
             'technique': 'TLA+ lock-protocol model checked with TLC (deadlock, lockset); race-detector exploration of the implementation classified by the model'},
     'C19': {'text': 'The specification computes, per Apply, the trigger calls (per trigger and row, in issue order, final values, one '
                     'per deleted row); the real trigger callbacks recorded between two in-latch logger events must equal them; '
